@@ -93,6 +93,13 @@ def run_shard(params):
                 Pk = dict(P, stop_at_event=max(lo + 1, k))
                 runs.append((Pk["stop_at_event"], Pk, stop_sim.run_history(Pk)))
                 cnt["stop_points_in_join_window"] = cnt.get("stop_points_in_join_window", 0) + 1
+            # ... and two aimed just behind a non-retriable error reply (the failed background task waits for a poll)
+            fe = H0.get("fatal_group_error_at_event")
+            if fe is not None and fe >= lo and not pinned:
+                for _ in range(2):
+                    Pk = dict(P, stop_at_event=fe + rng.randint(1, 12))
+                    runs.append((Pk["stop_at_event"], Pk, stop_sim.run_history(Pk)))
+                    cnt["stop_points_after_fatal_group_error"] = cnt.get("stop_points_after_fatal_group_error", 0) + 1
         for k, Pk, H in runs:
             res["evaluations"] += 1
             if H.get("stop_not_issued"):
